@@ -106,7 +106,7 @@ def build(run):
     lifecycle.verify_api(run)
     lifecycle.verify_shutdown(run)          # re-raises it unless it is a cancellation
     lifecycle.lifecycle_scans(run)
-    run.unclaim('edzed.run(): which error it raises when supporting tasks fail (module-level coroutine with task lists)')
+    lifecycle.verify_run(run)
     run.assume('A-cancel: user code does not cancel edzed tasks or write private fields')
     run.trust('asyncio.Task.cancel/done; interface contracts of handlers and monitored coroutines')
 
